@@ -79,8 +79,15 @@ func cmdVerify(args []string) {
 			res := eng.VerifyFunction(fn)
 			DischargeAll(res.Obligations, dir, *timeout, 8)
 			fmt.Printf("== %s (%d instrs, %d obligations)\n", res.Func, res.Instrs, len(res.Obligations))
+			seenU := map[string]bool{}
 			for _, u := range res.Unsupported {
-				fmt.Printf("   UNSUPPORTED %s\n", u)
+				if !seenU[u] {
+					seenU[u] = true
+					if len(u) > 400 {
+						u = u[:150] + " ... " + u[len(u)-220:]
+					}
+					fmt.Printf("   UNSUPPORTED %s\n", u)
+				}
 			}
 			if *verbose {
 				for _, n := range res.Notes {
@@ -95,7 +102,10 @@ func cmdVerify(args []string) {
 				if *verbose || o.Status != "proved" {
 					fmt.Printf("   %-8s %-10s %s  [%s %dms] %s %s\n", mark, o.Class, o.Name, o.Solver, o.TimeMS, o.Pos, o.Detail)
 				}
-				if *dump != "" && strings.Contains(o.Name, *dump) {
+				if *dump != "" && (strings.HasSuffix(o.Name, *dump) || (!strings.HasPrefix(*dump, "=") && strings.Contains(o.Name, *dump))) {
+					if strings.HasSuffix(o.Name, *dump) {
+						os.WriteFile("/tmp/dump_exact.smt2", []byte(o.SMT()), 0o644)
+					}
 					os.WriteFile("/tmp/dump.smt2", []byte(o.SMT()), 0o644)
 					fmt.Printf("   dumped to /tmp/dump.smt2\n")
 					if o.Model != "" {
